@@ -20,6 +20,7 @@ class QuicConnectionProtocol(asyncio.DatagramProtocol):
         self._connected_waiter: Optional[asyncio.Future[None]] = None
         self._loop = loop
         self._ping_waiters: dict[int, asyncio.Future[None]] = {}
+        self._processing_events = False
         self._quic = quic
         self._stream_readers: dict[int, asyncio.StreamReader] = {}
         self._timer: Optional[asyncio.TimerHandle] = None
@@ -135,6 +136,10 @@ class QuicConnectionProtocol(asyncio.DatagramProtocol):
             self._timer = self._loop.call_at(timer_at, self._handle_timer)
         self._timer_at = timer_at
 
+        # handle the events raised while the datagrams were built: a connection ID
+        # announced in a NEW_CONNECTION_ID frame must be routable before the peer uses it
+        self._process_events()
+
     async def wait_closed(self) -> None:
         """
         Wait for the connection to be closed.
@@ -209,6 +214,17 @@ class QuicConnectionProtocol(asyncio.DatagramProtocol):
         self.transmit()
 
     def _process_events(self) -> None:
+        if self._processing_events:
+            # called by an event handler (through transmit()): the loop which
+            # called that handler goes on with the remaining events
+            return
+        self._processing_events = True
+        try:
+            self._drain_events()
+        finally:
+            self._processing_events = False
+
+    def _drain_events(self) -> None:
         event = self._quic.next_event()
         while event is not None:
             if isinstance(event, events.ConnectionIdIssued):
